@@ -31,77 +31,63 @@ class Pool:
         return subprocess.Popen([self.drv], stdin=subprocess.PIPE, stdout=subprocess.PIPE,
                                 stderr=subprocess.DEVNULL, env=e, cwd=self.env.root, text=True, bufsize=1)
 
-    def _worker(self, q, results):
-        p = None
-        while True:
+    def _run_chunk(self, items, results):
+        """items: list of (idx, job). Streams the whole chunk through one server process (no per-job
+        round trip); if the server dies or reports a hang, the job in flight is marked and the rest of
+        the chunk is given to a fresh server."""
+        pending = list(items)
+        e = dict(os.environ)
+        e["FERRET_LIBS_PATH"] = self.env.libs
+        e["NO_COLOR"] = "1"
+        e["GOMAXPROCS"] = "2"
+        e["TMPDIR"] = self.env.root
+        e["FESRV_JOB_TIMEOUT_MS"] = str(int(self.job_timeout * 1000))
+        while pending:
+            inp = "".join(json.dumps(dict(job, id=idx)) + "\n" for idx, job in pending)
             try:
-                idx, job = q.get_nowait()
-            except queue.Empty:
+                p = subprocess.run([self.drv], input=inp, capture_output=True, text=True, env=e, cwd=self.env.root,
+                                   timeout=self.job_timeout * 3 + 2.0 * len(pending))
+                out = p.stdout
+            except subprocess.TimeoutExpired as ex:
+                out = ex.stdout if isinstance(ex.stdout, str) else (ex.stdout or b"").decode("utf-8", "replace")
+            last_started = None
+            hang = None
+            for ln in out.split("\n"):
+                if not ln.startswith("{"):
+                    continue
+                try:
+                    o = json.loads(ln)
+                except Exception:
+                    continue
+                if "start" in o:
+                    last_started = o["start"]
+                elif o.get("hang"):
+                    hang = o["id"]
+                elif "id" in o:
+                    results[o["id"]] = o
+            remaining = [it for it in pending if results[it[0]] is None]
+            if not remaining:
                 break
-            if p is None or p.poll() is not None:
-                p = self._spawn()
-            timed_out = [False]
-
-            def kill(pp=p, flag=timed_out):
-                flag[0] = True
-                try:
-                    pp.kill()
-                except Exception:
-                    pass
-            tm = threading.Timer(self.job_timeout, kill)
-            tm.start()
-            res = None
-            try:
-                j = dict(job)
-                j["id"] = idx
-                p.stdin.write(json.dumps(j) + "\n")
-                p.stdin.flush()
-                while True:
-                    ln = p.stdout.readline()
-                    if not ln:
-                        break
-                    try:
-                        o = json.loads(ln)
-                    except Exception:
-                        continue
-                    if "start" in o:
-                        continue
-                    if o.get("id") == idx:
-                        res = o
-                        break
-            except (BrokenPipeError, OSError):
-                res = None
-            tm.cancel()
-            if res is None:
-                if timed_out[0]:
-                    self.stats["timeouts"] += 1
-                    results[idx] = {"srv": "TIMEOUT"}
-                else:
-                    self.stats["server_deaths"] += 1
-                    results[idx] = {"srv": "DIED"}
-                try:
-                    p.kill()
-                except Exception:
-                    pass
-                p = None
+            if hang is not None:
+                culprit = hang
+                self.stats["timeouts"] += 1
+                results[culprit] = {"srv": "TIMEOUT"}
             else:
-                results[idx] = res
-        if p is not None:
-            try:
-                p.stdin.close()
-                p.wait(timeout=5)
-            except Exception:
-                p.kill()
+                culprit = last_started if (last_started is not None and results[last_started] is None) \
+                    else remaining[0][0]
+                self.stats["server_deaths"] += 1
+                results[culprit] = {"srv": "DIED"}
+            pending = [it for it in remaining if it[0] != culprit]
 
     def compile_many(self, jobs, cli_timeout=60):
         """jobs: list of dict(entry, backend='qbe'|'wasm', skip=bool, out=path|None).
         Returns a list of observation dicts shaped like Env.compile's."""
         jobs = list(jobs)
         results = [None] * len(jobs)
-        q = queue.Queue()
-        for i, j in enumerate(jobs):
-            q.put((i, j))
-        ths = [threading.Thread(target=self._worker, args=(q, results)) for _ in range(min(self.n, len(jobs)))]
+        items = list(enumerate(jobs))
+        n = max(1, min(self.n, (len(items) + 19) // 20))
+        chunks = [items[i::n] for i in range(n)]
+        ths = [threading.Thread(target=self._run_chunk, args=(c, results)) for c in chunks if c]
         for t in ths:
             t.start()
         for t in ths:
@@ -114,12 +100,17 @@ class Pool:
             if o is None:
                 redo.append(i)
             obs.append(o)
-        for i in redo:                       # confirm alone through the real CLI
+
+        def confirm(i):                      # confirm alone through the real CLI
             j = jobs[i]
-            self.stats["cli_confirmations"] += 1
-            obs[i] = self.env.compile(j["entry"], target="wasm" if j.get("backend") == "wasm" else "native",
-                                      out=j.get("out"), typecheck_only=bool(j.get("skip")), timeout=cli_timeout)
-            obs[i]["via"] = "cli"
+            o = self.env.compile(j["entry"], target="wasm" if j.get("backend") == "wasm" else "native",
+                                 out=j.get("out"), typecheck_only=bool(j.get("skip")), timeout=cli_timeout)
+            o["via"] = "cli"
+            return i, o
+        self.stats["cli_confirmations"] += len(redo)
+        from . import core
+        for i, o in core.pmap(confirm, redo, workers=8):
+            obs[i] = o
         return obs
 
     def _classify(self, j, r):
